@@ -140,6 +140,25 @@ def check_prims(ctx, rep):
                 _py(lambda: list("".join(chr(c) for c in cps).encode("utf-16LE"))))
             cmp("str.replace('\\\\', '/')", cps, model.call("prim_str", [7, cps, []]),
                 [ord(c) for c in "".join(chr(c) for c in cps).replace("\\", "/")])
+        if "gen_SignatureHeader_retrieve" in vlib.fn_table():
+            import io as _io
+            from py7zr.helpers import read_fully
+
+            class Dribble(_io.RawIOBase):       # a file that returns at most 3 bytes per read()
+                def __init__(self, data):
+                    self.d, self.p = data, 0
+
+                def read(self, n=-1):
+                    k = min(3, n if n >= 0 else 3)
+                    out = self.d[self.p:self.p + k]
+                    self.p += len(out)
+                    return out
+            for ln in (0, 1, 5, 26, 27, 40):
+                data = bytes(rng.randrange(256) for _ in range(ln))
+                for want_n in (0, 1, 26, 30):
+                    cmp("read_fully(file, n) = the next n bytes (fewer at the end)", (ln, want_n),
+                        [read_fully(_io.BytesIO(data), want_n), read_fully(Dribble(data), want_n), read_fully(_io.BytesIO(data), want_n, 4)],
+                        [data[:want_n]] * 3)
         from py7zr.helpers import ArchiveTimestamp
         for v in (0, 1, 5, 1 << 63, (1 << 64) - 1, -3):
             cmp("ArchiveTimestamp(v) is the int v", v, [int(ArchiveTimestamp(v)), ArchiveTimestamp(v) == v, isinstance(ArchiveTimestamp(v), int),
